@@ -391,7 +391,7 @@ def exercise_rule_api(ctx, trees, file_rules, file_nmap):
             log.append(label)
             out.append((label, res))
             if R.rules_dict.get(rn) != file_rules[rn]:
-                now = R.rules_dict.get(rn)
+                now = copy.deepcopy(R.rules_dict.get(rn))
                 ctx.fail(f"C10:table-mutated:{rn}",
                          f"the read-only query {label} on Rule('{rn}') changed the rule table: the live entry of '{rn}' no longer equals rules.json",
                          {"kind": "impl-vs-statement", "rule": rn, "call_sequence": [f"r = Rule({rn!r})"] + ["r." + c for c in log],
